@@ -13,3 +13,7 @@ long long hxs_exf_fsize(IWFS_EXT *f) {
 long long hxs_exf_maplen(IWFS_EXT *f) {
   return f && f->impl && f->impl->mmslots ? (long long) f->impl->mmslots->len : -1;
 }
+
+int hxs_exf_fd(IWFS_EXT *f) {
+  return f && f->impl ? (int) f->impl->fh : -1;
+}
